@@ -112,6 +112,7 @@ func lalHandlesRollover() bool {
 	return !rolloverLegacy
 }
 
+// exclude is no longer installed (kept for sensitivity runs against trees older than ac51114).
 func exclude(c Case) string {
 	if c.Wrap && !lalHandlesRollover() {
 		return "rtmp-timestamp-rollover: pending fix findings/c06-2 (ts|hls/video|audio/*-offset-not-constant)"
@@ -121,7 +122,7 @@ func exclude(c Case) string {
 
 func TestRtmpToTsHlsRtsp(t *testing.T) {
 	pbt.Run(t, pbt.Spec[Case]{
-		ID: "C06", Name: "rtmp-to-ts-hls-rtsp", Gen: genCase, Run: run, Classify: classify, Exclude: exclude,
+		ID: "C06", Name: "rtmp-to-ts-hls-rtsp", Gen: genCase, Run: run, Classify: classify, // the roll-over class was excluded while fix ac51114 was pending; nothing is excluded any more
 		Quick: 600, Thorough: 4000,
 	})
 }
